@@ -2,7 +2,7 @@
 C10  Results are independent of call history (memoisation is transparent).
 
 A RuleBasedStateMachine generates histories of
-    build a fresh type object / convert with a live type / build-use-drop a temporary
+    build a fresh type object / convert with a live type / convert, modify the result, convert the same data again / build-use-drop a temporary
     type literal / drop a live type / gc.collect() / convert with call-level handlers in
     each of the three forms / compare the memoised converter with one built past the
     cache / run a batch of conversions from 4 threads / subscript a generic many times
@@ -30,7 +30,7 @@ from ..codec import short
 from ..oracles import outcome, judge_conv
 
 ID = 'C10'
-RULE = ("Hypothesis stateful: histories of up to 50 (thorough: 120) operations over {build, convert, temp-literal, drop, gc, handlers x 3 forms, "
+RULE = ("Hypothesis stateful: histories of up to 50 (thorough: 120) operations over {build, convert, convert-modify-result-convert-again, temp-literal, drop, gc, handlers x 3 forms, "
         "memo-vs-fresh, 4-thread batch, mass subscription}; types are short-lived objects (tuple/struct literals, PEP 585 and typing aliases, "
         "Annotated aliases, dynamically created dataclasses) so that ids can be recycled. Every conversion outcome is compared with the "
         "reference verdict for (spec, value). Non-trivial = the history drops a type (or uses a temporary literal) and later builds another "
@@ -84,6 +84,10 @@ def small_specs() -> st.SearchStrategy[t.Any]:
         ])),
         st.tuples(st.just('ann'), st.just(S('int')), st.lists(tg.COND_NUM, min_size=1, max_size=1).map(tuple)),
         cg.class_specs(sc, max_fields=2, naming=False, hooks=False),
+        # fields whose default is the product of a factory (a list / dict / set made per conversion): a converter that keeps one
+        # product makes the next answer depend on what the caller did with the previous one
+        cg.class_specs(st.one_of(sc, st.tuples(st.just('seq'), st.sampled_from(['List', 'Set', 'Deque']), sc),
+                                 st.tuples(st.just('map'), st.just('Dict'), st.just(S('str')), sc)), max_fields=3, naming=False, hooks=False),
     )
 
 
@@ -93,6 +97,30 @@ def permuted(spec: t.Any) -> t.Any:
     if isinstance(spec, tuple):
         return tuple(permuted(x) for x in spec)
     return spec
+
+
+def scribble(x: t.Any, depth: int = 0) -> None:
+    """Modify every list / dict / set / deque reachable from a conversion result (what a caller filling in a record does)."""
+    import collections
+    if depth > 6:
+        return
+    if isinstance(x, (list, collections.deque)):
+        for y in list(x):
+            scribble(y, depth + 1)
+        x.append('<scribble>')
+    elif isinstance(x, dict):
+        for y in list(x.values()):
+            scribble(y, depth + 1)
+        x['<scribble>'] = '<scribble>'
+    elif isinstance(x, set):
+        x.add('<scribble>')
+    elif isinstance(x, tuple):
+        for y in x:
+            scribble(y, depth + 1)
+    elif hasattr(type(x), '__pane_info__'):
+        for f in type(x).__pane_info__.fields:
+            if hasattr(x, f.name):
+                scribble(getattr(x, f.name), depth + 1)
 
 
 class Executor:
@@ -164,6 +192,18 @@ class Executor:
             nd = self.live[op[1] % len(self.live)]
             v = op[2]
             self._judge(nd, v, outcome(lambda: pane.from_data(v, nd._ty)), 'from_data')
+        elif kind == 'reconvert' and self.live:
+            # convert, let the caller do what callers do with a result (fill its containers), convert the same data again:
+            # the second answer is the reference's answer for (T, v) still - results of separate calls share no mutable state
+            from ..codec import clone
+            nd = self.live[op[1] % len(self.live)]
+            for what in ('from_data', 'from_data[after the previous result was modified]', 'convert[after the previous result was modified]'):
+                v = clone(op[2])
+                f = pane.convert if what.startswith('convert') else pane.from_data
+                out = outcome(lambda: f(v, nd._ty))
+                self._judge(nd, v, out, what)
+                if out[0] == 'ok':
+                    scribble(out[1])
         elif kind == 'roundtrip' and self.live:
             nd = self.live[op[1] % len(self.live)]
             v = op[2]
@@ -364,6 +404,12 @@ def make_machine(step_budget: int, big: bool) -> t.Any:
             nd = self.ex.live[i % len(self.ex.live)]
             v = data.draw(st.one_of(nd.valid(), nd.valid(), tg.data_values(3)))
             self.ex.apply(['convert', i, v])
+
+        @precondition(lambda self: len(self.ex.live) > 0)
+        @rule(data=st.data(), i=st.integers(0, 7))
+        def reconvert(self, data: t.Any, i: int) -> None:
+            nd = self.ex.live[i % len(self.ex.live)]
+            self.ex.apply(['reconvert', i, tg.plainify(data.draw(nd.valid()))])
 
         @precondition(lambda self: len(self.ex.live) > 0)
         @rule(data=st.data(), i=st.integers(0, 7))
